@@ -292,6 +292,51 @@ static void construction_consistency() {
 	}
 }
 
+// ------------------------------------------------------------------ plain-data values used operator[]-style
+// `insert(k)` / `find_or_insert(k)` without constructor arguments value-initialise the entry (counters, pointers and plain structs
+// start at zero), also in a slot whose previous value was erased after it had been written to.
+struct Counters { uint64_t hits, last; };
+template<typename T> static uint64_t first_word(const T &v) { uint64_t w = 0; memcpy(&w, &v, sizeof(T) < 8 ? sizeof(T) : 8); return w; }
+template<typename T>
+static void plain_values_case(const char *tname, Rng &r) {
+	frg::rcu_radixtree<T, PlainAlloc> tree{PlainAlloc{}};
+	std::map<uint64_t, uint64_t> model; // key -> expected first word
+	uint64_t base = r.next();
+	std::vector<uint64_t> keys;
+	for(int i = 0; i < 12; i++) keys.push_back(r.chance(1, 2) ? base + r.below(20) : base ^ ((uint64_t)(1 + r.below(15)) << (4 * r.below(16))));
+	for(int i = 0; i < 120; i++) {
+		uint64_t k = keys[r.below(keys.size())];
+		bool present = model.count(k);
+		int op = r.below(4);
+		if(op == 0 && !present) {
+			T *p = tree.insert(k);
+			if(first_word(*p) != 0) { if(g_model_armed) violation(std::string("C09:model:radixtree:value-initialised:") + tname, strf("insert(%016llx) without arguments returned an entry whose first word is %llx (erased earlier: the old value shows through)", (unsigned long long)k, (unsigned long long)first_word(*p))); return; }
+			model[k] = 0;
+		} else if(op == 1) {
+			auto res = tree.find_or_insert(k); T *p = res.template get<0>();
+			if(res.template get<1>() == present) { if(g_model_armed) violation("C09:model:radixtree:find_or_insert-flag", "find_or_insert(k) reports insertion for a present key or none for an absent one"); return; }
+			if(first_word(*p) != (present ? model[k] : 0)) { if(g_model_armed) violation(std::string("C09:model:radixtree:value-initialised:") + tname, strf("find_or_insert(%016llx) without arguments returned an entry whose first word is %llx, expected %llx", (unsigned long long)k, (unsigned long long)first_word(*p), (unsigned long long)(present ? model[k] : 0))); return; }
+			if(!present) model[k] = 0;
+		} else if(op == 2 && present) {
+			T *p = tree.find(k); if(!p) { if(g_model_armed) violation("C09:model:radixtree:find-present", "find() misses a present key of a plain-data tree"); return; }
+			uint64_t w = r.next() | 1; memset((void *)p, 0, sizeof(T)); memcpy((void *)p, &w, sizeof(T) < 8 ? sizeof(T) : 8); model[k] = first_word(*p); // the user writes to the entry
+		} else if(op == 3 && present) { tree.erase(k); model.erase(k); }
+		count("plain_value_operations");
+	}
+	for(auto &kv : model) { T *p = tree.find(kv.first); if(!p || first_word(*p) != kv.second) { if(g_model_armed) violation("C09:model:radixtree:plain-value-content", "find() of a plain-data tree returns an entry that does not hold what was last written to it"); return; } }
+}
+static void plain_values() {
+	if(!want_mode("plain-values")) return;
+	Rng r(derive_seed("plain-values"));
+	for(uint64_t c = opt.shard; c < scaled(400, 8000); c += opt.nshards) {
+		begin_case("plain-values", c);
+		guarded(g_prop.c_str(), [&] {
+			switch(c % 4) { case 0: plain_values_case<uint64_t>("uint64_t", r); break; case 1: plain_values_case<Counters>("struct{u64,u64}", r); break; case 2: plain_values_case<void *>("void*", r); break; default: plain_values_case<uint16_t>("uint16_t", r); break; }
+		});
+		note_distinct(mix(hash_str("plain-values"), c)); count("plain_value_cases");
+	}
+}
+
 // ------------------------------------------------------------------ insertions whose value constructor fails (throws)
 // A failed insertion must leave the map as it was: the key absent, every other key found, iteration unchanged. (What becomes of
 // the nodes allocated for the failed insertion is not looked at here.)
@@ -375,6 +420,7 @@ int main(int argc, char **argv) {
 	random_histories("rand:small", scaled(300, 10000), 120, 40);
 	random_histories("rand:large", scaled(8, 300), t ? 20000 : 4000, 0);
 	construction_consistency();
+	plain_values();
 	throwing_constructors();
 	modify_while_iterating();
 	sample("exh:4: keys {B, B^8<<60 (differs at the most significant nibble), B+1, 0} inserted in every order (insert / find_or_insert alternating), all finds + iteration after each step, then erase/re-insert");
